@@ -297,4 +297,6 @@ def prelude(spec, reply=None):
     script = [["wait_request"], ["stream", parts, "whole", 0.0], [spec.get("end", "eof"), 0.0]]
     # the earlier connection's application sent something too (compressed when the extension is on)
     reactions = [{"when": ["event", "ready", 0], "do": [["send_text", "earlier connection " * 3], ["send_binary", "00ff" * 10]]}]
-    return {"attempts": [{"script": script}], "reactions": reactions, "same_object": bool(spec.get("same"))}
+    return {"attempts": [{"script": script}], "reactions": reactions, "same_object": bool(spec.get("same")),
+            # the earlier connection was made inside a "with ws:" block (left normally when it ended)
+            "context_manager": bool(spec.get("with"))}
